@@ -168,6 +168,7 @@ func c02Explore(r *explore.Rec, tpl *liquid.Template, mk func() map[string]any, 
 	rec = func(prefix []int, parentLog []uint32, devs int) {
 		sig, log := run(prefix)
 		execs++
+		explore.Heartbeat()
 		r.Eval()
 		r.Trace()
 		// replaying a prefix must reproduce the same choice points
@@ -361,7 +362,11 @@ func c02Families(tier string) []explore.Family {
 		})
 		mapSeamEnd()
 		base := o.Sig()
-		execs := c02Explore(r, tpl, func() map[string]any { return c02Bindings(c.n, c.order) }, base, bound, func(choices []int) any {
+		b := bound
+		if b > 2 && c.n > 4 {
+			b = 2 // 16 answers per choice point: the third deviation level is explored for the small maps only
+		}
+		execs := c02Explore(r, tpl, func() map[string]any { return c02Bindings(c.n, c.order) }, base, b, func(choices []int) any {
 			return map[string]any{"template": src, "map_entries": c.n, "insertion_order": c.order, "iteration_start_choices": choices}
 		})
 		r.Class(fmt.Sprintf("t%d/n%d/%s", c.t, c.n, o.Class()))
@@ -479,7 +484,7 @@ func init() {
 		Digest:   c02Digest,
 		Bound: func(tier string) string {
 			if tier == "thorough" {
-				return "all executions with <=3 deviating map-iteration starts"
+				return "all executions with <=3 deviating map-iteration starts for maps of <=4 entries, <=2 for 8 and 12 entries"
 			}
 			return "all executions with <=1 deviating map-iteration start"
 		},
